@@ -5,7 +5,7 @@ from .engine import AUTO
 from .runner import scenario, sim_case
 from .workloads import pick_chunks
 
-GRID = [AUTO, 0, 0.0001, 0.000999, 0.001, 0.0015, 0.25, 1, 4.999, 5, 5.000000001, 12.5, 1e6, 1e9, 1.7e10, 1e30, "1", True, None, -1, {}, [1]]
+GRID = [AUTO, 0, 0.0001, 0.000999, 0.001, 0.0015, 0.25, 1, 4.999, 5, 5.000000001, 12.5, 1e6, 1e9, 4294967297.5, 8.6e9, 1.7e10, 1e30, "1", True, None, -1, {}, [1]]
 
 
 def valid(t):
